@@ -1253,9 +1253,14 @@ class Interp:
         if name == "transpose":
             if isinstance(a0, ArrV):
                 return ArrV(a0.cols, a0.rows, form=fT(a0))
-        if name in ("linalg.inv", "linalg.pinv"):
+        if name == "linalg.inv":
             if isinstance(a0, ArrV):
                 return ArrV(a0.cols, a0.rows, origin="inv", form=a0.form.inv() if a0.form is not None else None)
+        if name == "linalg.pinv":
+            # the pseudo-inverse truncates directions below rcond * largest singular value: it is the inverse only for well-conditioned arguments,
+            # so its normal form is an atom of its own, not Inv(.)
+            if isinstance(a0, ArrV):
+                return ArrV(a0.cols, a0.rows, origin="pinv", form=MatForm.atom("pinv[" + repr(a0.form) + "]", True) if a0.form is not None else None)
         if name == "linalg.cholesky":
             if isinstance(a0, ArrV):
                 return ArrV(a0.rows, a0.cols, origin="cholesky", form=MatForm.chol(a0.form) if a0.form is not None else None)
